@@ -487,6 +487,8 @@ def partitions(tier):
         for a in OPS_CORE:
             add("llc_pair", [a], 2, "core", agf=1)
             add("llc_pair", [a], 2, "core", agf=0)
+        for b in ("closeA", "busyB", "sendbigA"):
+            add("llc_pair", ["sendA", b], 2, "core", agf=1)
     else:
         for a in OPS_ACKS:
             for b in OPS_ACKS:
@@ -500,12 +502,12 @@ def partitions(tier):
             for b in OPS_ONEWAY:
                 add("dlc_pair", [a, b], 4, "oneway", warm=[])
         for a in OPS_ALL:
-            for b in OPS_ALL:
+            for b in OPS_MORE:
                 add("dlc_pair", [a, b], 2, "more", warm=[])
-        for a in OPS_MORE:
-            for b in OPS_CORE:
-                add("llc_pair", [a, b], 2, "more", agf=1)
-                add("llc_pair", [a, b], 2, "more", agf=0)
+        for a in OPS_CORE:
+            for b in OPS_MORE:
+                add("llc_pair", [a, b], 2, "core", agf=1)
+                add("llc_pair", [a, b], 2, "core", agf=0)
     return parts
 
 
@@ -514,7 +516,7 @@ MUST_REACH = ["send:accepted", "send:EMSGSIZE", "send:window-full",
               "wire:ack", "drained", "closed", "llc-pair-established", "acks:yes"]
 BOUNDS = {
     "quick": "DataLinkConnection pair: RW of both ends symbolic 0..15, initial sequence variables of both directions symbolic 0..15, connection MIU of both ends symbolic 128..2175; histories of up to 4 operations from the 6 core ones {send on A/B, recv on A/B, link exchange A->B / B->A}, up to 3 from 9 (adds 129-octet send, receiver-busy toggle on B, close on A), up to 3 core operations after a 4-operation warm-up, up to 3 from {xfer, poll('acks'), send, recv} after a 3-operation warm-up; afterwards link exchanges and reads until quiescent.  LogicalLinkController pair: real listen/connect/accept handshake over collect()/dispatch(), link MIU symbolic 128..2175, aggregation on/off, up to 3 core operations",
-    "thorough": "as quick with up to 5 core operations (also after two warm-up prefixes), up to 6 of the one-direction operations {send A, xfer A, xfer B, recv B}, 2 fixed from 14 (adds blocking send, poll('acks'), busy on A, close on B, 129-octet send on B) + 2 from 9, up to 5 of the acknowledgement-counter operations, LLC pair histories of up to 4 operations",
+    "thorough": "as quick with up to 5 core operations (also after two warm-up prefixes), up to 6 of the one-direction operations {send A, xfer A, xfer B, recv B}, 2 fixed (14 x 9; adds blocking send, poll('acks'), busy on A, close on B, 129-octet send on B) + 2 from 9, up to 5 of the acknowledgement-counter operations, LLC pair histories of up to 4 operations",
 }
 OUTSIDE = ["real thread schedules of blocking application calls against the two link run loops (the blocking half of the property's quantifier): a call that reaches Condition.wait() is an event here, not a sleeping thread",
            "histories longer than the bound (sequence wrap-around is covered by the symbolic initial sequence variables, not by length)",
